@@ -44,6 +44,7 @@ func rulesC02(c *Ctx) {
 	ruleRowComparatorFirstNonZero(c, "C02.CMP", c.P.SSAFunc(c.P.Method("boltz", "rowComparatorImpl", "Compare")))
 	ruleC02Parse(c)
 	ruleSortFieldsVerbatim(c, "C02.SORTFIELDS")
+	ruleBoundedResultTree(c, "C02.BOUNDEDPAGE", "boltz")
 	ruleC02Scanner(c)
 	rulePageMatch(c, "C02.PAGEMATCH", "boltz")
 	// sort keys are decoded from the stored bytes: width/sign of every fixed-width decode
